@@ -84,3 +84,117 @@ def pivot_positional_relabel(ctx: Ctx) -> None:
                                     f'the index `{it[:50]}` is applied positionally to `{rt[:70]}`, whose rows are in group-iteration order: nothing on this path establishes that the two orders '
                                     'agree, so cells are attached to the labels of other groups', key=key)
     ctx.require(n >= 3, 'paths reaching the relabel of pivot')
+
+
+def _ctor_at_return(se: SymEnv, f) -> tp.Iterator[tp.Tuple[ast.Return, tp.Any, ast.Call]]:
+    for node, worlds in se.all_sites():
+        if not isinstance(node, ast.Return) or node.value is None:
+            continue
+        for w in sorted(worlds):
+            v = se.resolved(node.value, w)
+            if isinstance(v, ast.Call) and norm(v.func) == 'self.__class__':
+                yield node, w, v
+
+
+def set_index_pairs(ctx: Ctx) -> None:
+    R = 'E.pair[set-index]'
+    ctx.rule(R, 'per path (symbolic store) of set_index / set_index_hierarchy / unset_index: the new index is built from the addressed column(s) of self\'s own blocks, '
+             'all rows in row order; with drop the same positional key removes the column from the blocks and from the column labels, without drop blocks and '
+             'columns are self\'s own; when rows are reordered for the hierarchy, index and row permutation come from one rehierarch call and the permutation is '
+             'applied to the blocks; unset_index puts the index values in front of the blocks and the index names in front of the column labels; the name is kept', floor=8)
+    prog = ctx.prog
+    n = 0
+    # ---- set_index
+    f = prog.method('Frame', 'set_index', inherited=False)
+    se = SymEnv(f.node, watch=lambda x: isinstance(x, ast.Return), keep_fact=lambda t: t == 'drop' or t.startswith('isinstance(')).run()
+    iloc = 'self._columns._loc_to_iloc(column)'
+    for node, w, v in _ctor_at_return(se, f):
+        n += 1
+        facts = se.facts(w)
+        drop = facts.get('drop')
+        data = norm(v.args[0]) if v.args else norm(kwarg(v, 'data'))
+        cols, idx, nm = norm(kwarg(v, 'columns')), norm(kwarg(v, 'index')), norm(kwarg(v, 'name'))
+        problems = []
+        if f'self._blocks._extract_array(column_key={iloc})' not in idx:
+            problems.append(f'the index is built from `{idx[:60]}`, not from the addressed column of self\'s blocks')
+        if 'row_key=' in idx:
+            problems.append('the index values are a row selection of the column')
+        if drop:
+            if data != f'TypeBlocks.from_blocks(self._blocks._drop_blocks(column_key={iloc}))':
+                problems.append(f'with drop the data are `{data[:60]}`')
+            if cols != f'self._columns._drop_iloc({iloc})':
+                problems.append(f'with drop the columns are `{cols[:60]}`: data and labels do not lose the same column')
+        elif drop is False:
+            if data != 'self._blocks' or cols != 'self._columns':
+                problems.append(f'without drop the result pairs `{data[:40]}` with columns `{cols[:40]}`')
+            if norm(kwarg(v, 'own_data')) != 'False' or norm(kwarg(v, 'own_columns')) != 'False':
+                problems.append('without drop self\'s own blocks / columns are handed over as owned')
+        if nm != 'self._name':
+            problems.append('the name is not kept')
+        (ctx.bad if problems else ctx.ok)(R, f, node, '; '.join(problems) or f'drop={drop}: index from the addressed column; data and labels agree', key=f'set_index:drop={drop}:{"int" if any(k.startswith("isinstance(") and val for k, val in facts.items()) else "multi"}')
+    # ---- set_index_hierarchy
+    g = prog.method('Frame', 'set_index_hierarchy', inherited=False)
+    se = SymEnv(g.node, watch=lambda x: isinstance(x, ast.Return), keep_fact=lambda t: t in ('drop', 'reorder_for_hierarchy')).run()
+    for node, w, v in _ctor_at_return(se, g):
+        facts = se.facts(w)
+        drop, reorder = facts.get('drop'), facts.get('reorder_for_hierarchy')
+        if drop is None or reorder is None:
+            continue
+        n += 1
+        data = norm(v.args[0]) if v.args else ''
+        cols, idx, nm = norm(kwarg(v, 'columns')), norm(kwarg(v, 'index')), norm(kwarg(v, 'name'))
+        problems = []
+        if 'self._blocks._extract(column_key=self._columns._loc_to_iloc(' not in idx:
+            problems.append(f'the hierarchy is built from `{idx[:60]}`, not from the addressed columns of self\'s blocks')
+        if reorder:
+            if not (idx.startswith('rehierarch_from_type_blocks(') and idx.endswith('[0]')):
+                problems.append('with reorder_for_hierarchy the index is not the first result of rehierarch_from_type_blocks')
+            else:
+                perm = idx[:-3] + '[1]'
+                if f'self._blocks._extract(row_key={perm})' not in data:
+                    problems.append('the rows are not reordered with the permutation that produced the index')
+        else:
+            if not idx.startswith('IndexHierarchy._from_type_blocks('):
+                problems.append(f'the index is `{idx[:50]}`')
+            if '_extract(row_key=' in data:
+                problems.append('rows are reordered although the index keeps row order')
+        if drop:
+            if not data.startswith('TypeBlocks.from_blocks(') or '._drop_blocks(column_key=self._columns._loc_to_iloc(' not in data:
+                problems.append(f'with drop the data are `{data[:60]}`')
+            if not cols.startswith('self._columns._drop_iloc(self._columns._loc_to_iloc('):
+                problems.append(f'with drop the columns are `{cols[:60]}`')
+        else:
+            if cols != 'self._columns':
+                problems.append(f'without drop the columns are `{cols[:40]}`')
+        if nm != 'self._name':
+            problems.append('the name is not kept')
+        (ctx.bad if problems else ctx.ok)(R, g, node, '; '.join(problems) or f'drop={drop}, reorder={reorder}: index and rows in one order; data and labels agree', key=f'set_index_hierarchy:drop={drop}:reorder={reorder}')
+    # ---- unset_index
+    u = prog.method('Frame', 'unset_index', inherited=False)
+    gens = [nf for nf in u.nested if nf.is_generator()]
+    problems = []
+    if len(gens) != 1:
+        problems.append('no single block generator')
+    else:
+        ys = [y for y in walk_local(gens[0].node) if isinstance(y, (ast.Yield, ast.YieldFrom))]
+        first = ys[0] if ys else None
+        if not (isinstance(first, ast.Yield) and norm(first.value) in ('self.index.values', 'self._index.values')):
+            problems.append('the index values are not the first block')
+        loops = [lp for lp in walk_local(gens[0].node) if isinstance(lp, ast.For) and norm(lp.iter) == 'self._blocks._blocks']
+        if len(loops) != 1 or not (first is not None and loops and first.lineno < loops[0].lineno):
+            problems.append('self\'s own blocks do not follow, in block order')
+    ex = roles.Expander(u.node)
+    ctor = [c for c in walk_local(u.node) if isinstance(c, ast.Call) and norm(c.func) == 'self.__class__']
+    for c in ctor:
+        cols = ex.expand(kwarg(c, 'columns'))
+        want = {'chain(names, self._columns.values)', 'chain(self._index.names, self._columns.values)'}
+        if not (cols and cols <= want):
+            problems.append(f'column labels are {sorted(cols)}: the labels of the index columns do not come first, in front of self\'s own column labels')
+        if norm(kwarg(c, 'index')) != 'None':
+            problems.append('the old index is kept as index')
+        data = ex.expand(c.args[0] if c.args else kwarg(c, 'data'))
+        if gens and not all(f'{gens[0].name}' in t for t in data):
+            problems.append('the data are not built from the block generator')
+    n += 1
+    (ctx.bad if problems else ctx.ok)(R, u, u.node, '; '.join(problems) or 'index values and index names are put in front of blocks and column labels, in the same order', key='unset_index')
+    ctx.require(n >= 8, 'set_index / set_index_hierarchy / unset_index result paths')
